@@ -618,9 +618,12 @@ static void run_stft(Json& js, vh::Rng& rng, long budget) {
                     const int nsegw = (int)rng.range(1, 6);
                     const int extra[] = {0, 1, hop - 1, (int)rng.range(0, hop)};
                     const int nx = ov + nsegw * hop + extra[rng.range(0, 3)] % std::max(1, hop);
+                    // the transform pair is linear: the signal level is free (every fourth case far from unit scale)
+                    static const double LV[] = {1e-10, 1e-14, 1e6, 3e-7};
+                    const double lev = (done % 4 == 3) ? LV[rng.range(0, 3)] : 1.0;
                     arr_real x(nx);
                     for (int i = 0; i < nx; ++i) {
-                        x[i] = rng.gauss();
+                        x[i] = lev * rng.gauss();
                     }
                     std::vector<arr_cmplx> Y;
                     arr_real xr;
